@@ -78,10 +78,10 @@ class State:
         return VObj(ref, cls)
 
     def get(self, obj, field, default=None):
-        return self.heap[obj.ref].get(field, default)
+        return self.heap.get(obj.ref, {}).get(field, default)
 
     def has(self, obj, field):
-        return field in self.heap[obj.ref]
+        return field in self.heap.get(obj.ref, {})
 
     def set(self, obj, field, v):
         self.heap[obj.ref][field] = v
@@ -396,7 +396,7 @@ class Engine:
         if isinstance(v, VOpt):
             return z3.And(z3.Not(v.isnone), self.truth(v.val, st))
         if isinstance(v, VOpaque):
-            return truthy(v.e)
+            return z3.And(v.e != U_NONE, truthy(v.e))
         if isinstance(v, VObj):
             m = self.R.models.get(v.cls)
             if m is not None and hasattr(m, "truth"):
@@ -544,13 +544,20 @@ class Engine:
     def ev_Set(self, node, st, module):
         raise Unsupported("set display")
 
+    def mangle(self, attr):
+        """private name mangling inside a class body (self.__x -> self._Class__x)"""
+        cls = getattr(self, "cur_class", None)
+        if cls and attr.startswith("__") and not attr.endswith("__"):
+            return "_%s%s" % (cls.lstrip("_"), attr)
+        return attr
+
     def ev_Attribute(self, node, st, module):
         out = []
         for r in self.ev(node.value, st, module):
             if r.exc is not None:
                 out.append(r)
                 continue
-            out.extend(self.getattr(r.st, r.val, node.attr, node))
+            out.extend(self.getattr(r.st, r.val, self.mangle(node.attr), node))
         return out
 
     def getattr(self, st, v, name, node=None):
@@ -582,6 +589,11 @@ class Engine:
                 return [Res(st, VBound(v, name))]
             if m is not None and name in getattr(m, "methods", {}):
                 return [Res(st, VBound(v, name))]
+            short = v.cls.rsplit(".", 1)[-1]
+            if name.startswith("_%s__" % short.lstrip("_")):       # mangled private method
+                orig = name[len(short.lstrip("_")) + 1:]
+                if (v.cls + "." + orig) in self.R.contracts or (v.cls + "." + orig) in self.R.specs:
+                    return [Res(st, VBound(v, orig))]
             raise Unsupported("attribute %s of %r" % (name, v))
         if isinstance(v, VClass):
             q = (v.qname or "?") + "." + name
@@ -1364,6 +1376,7 @@ class Engine:
         if hasattr(c, "refine_result"):
             res = c.refine_result(self, old, s1, a, res)
         if getattr(c, "can_return", True) and self.feasible(s1):
+            s1.event("call", c.name, a, "return", res)
             out.append(Res(s1, res))
         for q, meth in c.raises.items():
             s2 = st.fork()
@@ -1376,6 +1389,7 @@ class Engine:
             for label, cond in getattr(c, meth)(self, old, s2, a, exc):
                 s2.assume(cond)
             if self.feasible(s2):
+                s2.event("call", c.name, a, "raise", exc)
                 out.append(Res(s2, exc=exc))
         return out
 
@@ -1632,7 +1646,7 @@ class Engine:
                 if r.exc is not None:
                     outs.append(Out("raise", r.st, r.exc))
                     continue
-                outs.extend(self.lift(self.setattr(r.st, r.val, target.attr, val), lambda s, v: [Out("next", s)]))
+                outs.extend(self.lift(self.setattr(r.st, r.val, self.mangle(target.attr), val), lambda s, v: [Out("next", s)]))
             return outs
         if isinstance(target, ast.Subscript):
             outs = []
@@ -1686,7 +1700,21 @@ class Engine:
         # in-place operators on the modelled types have value semantics (no aliasing of local bytearrays, DESIGN 2.3)
         return self.lift(self.ev(fake, st), lambda s, v: self.assign(node.target, v, s))
 
+    def is_noop_block(self, stmts, st):
+        for x in stmts:
+            if isinstance(x, ast.Pass):
+                continue
+            if isinstance(x, ast.Expr) and isinstance(x.value, ast.Call) and self.is_dropped_call(x.value, st, self.cur_module):
+                continue
+            if isinstance(x, ast.Expr) and isinstance(x.value, ast.Constant):
+                continue
+            return False
+        return True
+
     def st_If(self, node, st):
+        if self.is_noop_block(node.body, st) and self.is_noop_block(node.orelse, st):
+            # both branches only contain dropped (logging) calls: evaluate the test for its exceptions, do not fork
+            return self.lift(self.ev(node.test, st), lambda s, v: [Out("next", s)])
         outs = []
         for r in self.ev(node.test, st):
             if r.exc is not None:
@@ -2004,6 +2032,8 @@ class Engine:
             mod, fnode = self.contract_fnode(c)
             self.cur_module = mod
             self.cur_contract = c
+            fq = self.split_func(c.name)[1]
+            self.cur_class = fq.rsplit(".", 1)[0] if "." in fq else None
             self.number_loops(fnode)
             st = State()
             a = c.setup(self, st)
